@@ -53,3 +53,32 @@ HARNESS(h_laws) {
   if (0) {} KB(0) KB(1) KB(2) KB(3) KB(4) KB(5) KB(6) KB(7) KB(8)
 #endif
 }
+
+/* is<T>() / as<T>() agreement on integer-stored values: is<T>() is true exactly when the stored number is representable in T, and then as<T>() is that number */
+#ifndef TBITS
+#define TBITS 64
+#endif
+#ifndef TSIGNED
+#define TSIGNED 1
+#endif
+#ifndef TNAME
+#define TNAME i64
+#endif
+#ifndef SKIND
+#define SKIND 2
+#endif
+#define ISAS2(n) k_isas_##n
+#define ISAS1(n) ISAS2(n)
+HARNESS(h_isas) {
+  HAVOC(IN_ba);
+  int is = 0; u64 as = 0; ISAS1(TNAME)(SKIND, IN_ba, &is, &as);
+  /* the stored mathematical value: int64 storage = (s64)bits, uint64 storage = bits */
+  int neg = (SKIND == 2) && ((s64)IN_ba < 0);
+  int fits;
+  if (TSIGNED) { if (neg) fits = TBITS == 64 ? 1 : ((s64)IN_ba >= -((s64)1 << (TBITS - 1))); else fits = IN_ba <= (TBITS == 64 ? 0x7fffffffffffffffULL : (((u64)1 << (TBITS - 1)) - 1)); }
+  else { fits = !neg && (TBITS == 64 ? 1 : IN_ba <= (((u64)1 << TBITS) - 1)); }
+  P(!is || fits, "is<T>() is true only when the stored number is representable in T");
+  P(is || !fits, "is<T>() is true whenever the stored number is representable in T");
+  if (is && fits) P(as == IN_ba, "as<T>() returns the stored number exactly");
+  WIT(is && IN_ba > 100);
+}
